@@ -103,7 +103,13 @@ def stepTok (descs : Array Region) (inDomain : Bool) (s : St) (tok : String) : E
       | some after =>
         let (c', msucc) := del s.model r
         let mdead := growDead descs s.model.dead c'.dead s.mdead
+        let before := (regs descs s.dump).getD []
         if inDomain && anyPairIntersect after then .error s!"SPEC key=overlap-in-cache op={tok}"
+        -- removal: afterwards no region of that name is cached, everything else is, and the
+        -- answer says whether there was one
+        else if after.any (·.name == r.name) then .error s!"SPEC key=del-left-region-in-cache op={tok}"
+        else if after != before.filter (·.name != r.name) then .error s!"SPEC key=del-changed-other-regions op={tok}"
+        else if succ != b01 (before.any (·.name == r.name)) then .error s!"SPEC key=del-wrong-answer op={tok}"
         else if b01 msucc != succ || c'.regions != after || mdead != dead then
           .error s!"DIFF op={tok} model={b01 msucc}:{showIdx (c'.regions.map (idxOf descs))}:{showIdx mdead}"
         else .ok (addTag { s with model := c', dump := dump, dead := dead, mdead := mdead } (if msucc then "del-hit" else "del-miss"))
@@ -156,6 +162,11 @@ def handle : List String → String
       if !distinct descs then "BAD duplicate descriptor" else
       let inDomain := descs.all (·.wfB)
       runToks descs inDomain ops ⟨Cache.empty, [], [], [], []⟩
+  | ["conc", rounds, overlapping, first] =>
+    -- puts of pairwise intersecting regions issued at the same instant by several goroutines
+    -- (harness/c08.go c08Concurrent): the invariant is about the cache, not about one caller
+    if overlapping = "overlapping=0" then s!"OK tags=conc,{rounds}"
+    else s!"SPEC key=overlap-in-cache-concurrent {overlapping} {first}"
   | _ => "BAD command"
 
 end GV.Drive.C08
